@@ -58,7 +58,8 @@ size_t G_rel_hi;             /* _tasks.hi at my last release of _mutex */
 #define TP_INV_DR(p) (!GW.running || (p)->_activeThreads >= 1)      /* the in-flight witness is visible to the drain predicate */
 #define TP_INV_CNT(p) (0 <= (p)->_threadsExited && (p)->_threadsExited <= (p)->_threadsCreated && (p)->_threadsCreated < (1 << 30) \
    && 0 <= (p)->_threadsStarted && (p)->_threadsStarted < (1 << 30) && 0 <= (p)->_waitingThreads && (p)->_waitingThreads < (1 << 30) \
-   && (p)->_threads.n < ((size_t)1 << 40) && (!(p)->_threads.has_self || (p)->_threads.n >= 1))
+   && (!(p)->_threads.has_self || (p)->_threads.n >= 1))
+#define TP_NBOUND(p) ((p)->_threads.n < ((size_t)1 << 40))      /* assumed after every environment step, never asserted */
 #define TP_INV(p) (TP_INV_Q(p) && TP_INV_W(p) && TP_INV_ME(p) && TP_INV_DR(p) && TP_INV_CNT(p))
 
 static inline void tp_snapshot(const ThreadPool *p)
@@ -82,7 +83,7 @@ static inline void tp_env_step(ThreadPool *p)
   p->_tasks.lo = lo; p->_tasks.hi = hi; p->_tasks.w = w; p->_shutdown = sh; p->_accepting = acc; p->_lifecycleState = lc;
   p->_threads.n = n; p->_threads.has_self = hs; p->_threads.self_joinable = sj; p->_activeThreads = act; p->_busyThreads = busy;
   GW.running = run; GW.done = done;
-  IORA_ASSUME(TP_INV(p) && TP_NOWRAP(p));                                   /* R6 the others keep the monitor invariant (incl. the DR discipline) */
+  IORA_ASSUME(TP_INV(p) && TP_NOWRAP(p) && TP_NBOUND(p));                                   /* R6 the others keep the monitor invariant (incl. the DR discipline) */
 }
 
 /* ------------------------------------------------------------------------------------------------ lock hooks */
@@ -167,25 +168,25 @@ static inline void tp_handler_call(ThreadPool *p, iora_handler h) { (void)h; IOR
   __CPROVER_assigns(currentExited, claimedExitSlot, self->_threadsExited) \
   __CPROVER_loop_invariant(!claimedExitSlot && currentExited == self->_threadsExited && 0 <= currentExited && currentExited <= self->_threadsCreated && self->_threadsCreated < (1 << 30)))
 
-#define TP_LOOP_ENV_ASSIGNS TP_SHARED_BY_ENV, self->_tasks.other, self->_mutex.held, ME, LIN, LIN0, G_acquired, G_rel_hi
+#define TP_LOOP_ENV_ASSIGNS TP_SHARED_BY_ENV, self->_tasks.other, self->_mutex.held, ME, LIN, G_rel_hi
 #define TP_LOOP_ENV_INV (!self->_mutex.held && !self->_configMutex.held && TP_INV(self) && TP_NOWRAP(self))
 /* constructor loop 1: spawn the initial workers */
 #define IORA_LOOP_ThreadPool_ctor_1 IORA_LC( \
-  __CPROVER_assigns(i, TP_LOOP_ENV_ASSIGNS) \
+  __CPROVER_assigns(i, TP_LOOP_ENV_ASSIGNS, LIN0, G_acquired) \
   __CPROVER_loop_invariant(i <= workerCount && TP_LOOP_ENV_INV && ME.active == 0 && ME.busy == 0) \
   __CPROVER_decreases(workerCount - i))
 /* drain() loop 1 / shutdown() loops 1, 2: the same polling loop as phase 3 */
 #define IORA_LOOP_ThreadPool_drain_wait_1 IORA_LC( \
   __CPROVER_assigns(waitMs, finalActiveCount, finalPendingCount, TP_LOOP_ENV_ASSIGNS) \
-  __CPROVER_loop_invariant(0 <= waitMs && waitMs <= 2147483600 && TP_LOOP_ENV_INV && !timedOut) \
+  __CPROVER_loop_invariant(0 <= waitMs && waitMs <= 2147483600 && TP_LOOP_ENV_INV && !timedOut && G_acquired) \
   __CPROVER_decreases(2147483647 - waitMs))
 #define IORA_LOOP_ThreadPool_shutdown_wait_1 IORA_LC( \
   __CPROVER_assigns(waitMs, TP_LOOP_ENV_ASSIGNS) \
-  __CPROVER_loop_invariant(0 <= waitMs && waitMs <= maxWaitMs && waitMs % 50 == 0 && TP_LOOP_ENV_INV) \
+  __CPROVER_loop_invariant(0 <= waitMs && waitMs <= maxWaitMs && waitMs % 50 == 0 && TP_LOOP_ENV_INV && G_acquired) \
   __CPROVER_decreases(maxWaitMs - waitMs))
 #define IORA_LOOP_ThreadPool_shutdown_wait_2 IORA_LC( \
   __CPROVER_assigns(raceWaitMs, TP_LOOP_ENV_ASSIGNS) \
-  __CPROVER_loop_invariant(0 <= raceWaitMs && raceWaitMs <= raceMaxWaitMs && raceWaitMs % 50 == 0 && TP_LOOP_ENV_INV) \
+  __CPROVER_loop_invariant(0 <= raceWaitMs && raceWaitMs <= raceMaxWaitMs && raceWaitMs % 50 == 0 && TP_LOOP_ENV_INV && G_acquired) \
   __CPROVER_decreases(raceMaxWaitMs - raceWaitMs))
 
 /* shutdownPhase3_DrainTasks loop 1: the polling loop */
